@@ -325,12 +325,12 @@ func (c *c06sim) step() {
 	var acts []act
 	for _, ss := range c.src.Ready() {
 		ss := ss
-		acts = append(acts, act{fmt.Sprintf("exec c%d", ss.Conn.ID), 10, func() { c.src.Step(ss) }})
+		acts = append(acts, act{fmt.Sprintf("exec %s", ss.LabelString()), 10, func() { c.src.Step(ss) }})
 	}
 	for _, ss := range c.src.Replicas() {
 		ss := ss
 		if bl := c.src.ReplicaBacklog(ss); bl > 0 {
-			acts = append(acts, act{fmt.Sprintf("send c%d", ss.Conn.ID), 8, func() {
+			acts = append(acts, act{fmt.Sprintf("send %s", ss.LabelString()), 8, func() {
 				var n int64
 				switch s.Weighted("sendkind", []int{3, 2, 2}) {
 				case 0:
@@ -341,7 +341,7 @@ func (c *c06sim) step() {
 					n = 1 + int64(s.Choose("sendmid", 700))
 				}
 				sent := c.src.FeedReplica(ss, n)
-				r.Logf("source sends %d bytes to c%d", sent, ss.Conn.ID)
+				r.Logf("source sends %d bytes to %s", sent, ss.LabelString())
 			}})
 		}
 	}
